@@ -66,6 +66,9 @@ class GetService(DPWSPortTypeBase):
                     for handle in requested_handles:
                         state_containers.extend(self._mdib.states.descriptor_handle.get(handle, []))
 
+                # a state shall be in the result only once, even if it was requested multiple times
+                # (same handle twice, or by its own handle and by its descriptor handle)
+                state_containers = list({id(state): state for state in state_containers}.values())
                 self._logger.debug('_on_get_md_state requested Handles:{} found {} states', requested_handles,
                                    len(state_containers))
 
